@@ -842,9 +842,9 @@ impl Values<bool> for Intervals<bool> {
 
 impl Values<i64> for Intervals<i64> {
     fn values_len(&self) -> Option<usize> {
-        let min = (*self.min()?).clamp(-(self.capacity as i64), self.capacity as i64);
-        let max = (*self.max()?).clamp(-(self.capacity as i64), self.capacity as i64);
-        Some((max - min) as usize)
+        let min = *self.min()?;
+        let max = *self.max()?;
+        usize::try_from(max.saturating_sub(min)).ok()
     }
     fn max_value_len(&self) -> usize {
         self.capacity
